@@ -333,10 +333,6 @@ func c03Run(r *core.Run) {
 				r.Steps++
 				r.Fault("earlier_delivery_rejected_while_decoding")
 				r.Logf("prior undecodable delivery -> %s %s", po.Class(), world.ErrClass(po.Err))
-				if po.OK() {
-					r.Fail("reject", "C03/undecodable-instant-accepted", obs("n", n, "position", pos, "place", placeNames[place]))
-					return
-				}
 			}
 		}
 	}
